@@ -474,8 +474,11 @@ class WebSocket(object):
         if not isinstance(data, bytes):
             raise TypeError('data argument must be bytes')
         if compress and self.state.compression:
-            _payload = self.state.compression.compress(data)
-            self.session.send_compressed(Opcode.BINARY, _payload)
+            # The compressor is stateful: messages must reach the wire
+            # in the order they were compressed
+            with self.state.compression.lock:
+                _payload = self.state.compression.compress(data)
+                self.session.send_compressed(Opcode.BINARY, _payload)
         else:
             self.session.send(Opcode.BINARY, data)
 
@@ -518,8 +521,11 @@ class WebSocket(object):
             raise TypeError('text argument must not be bytes')
         payload = text.encode('utf-8')
         if compress and self.state.compression:
-            _payload = self.state.compression.compress(payload)
-            self.session.send_compressed(Opcode.TEXT, _payload)
+            # The compressor is stateful: messages must reach the wire
+            # in the order they were compressed
+            with self.state.compression.lock:
+                _payload = self.state.compression.compress(payload)
+                self.session.send_compressed(Opcode.TEXT, _payload)
         else:
             self.session.send(Opcode.TEXT, payload)
 
